@@ -218,6 +218,11 @@ func (bd *Backend) SendMetricsAsync(ctx context.Context, mm *gostatsd.MetricMap,
 	})
 
 	mm.Timers.Each(func(name, _ string, t gostatsd.Timer) {
+		if t.Histogram != nil && len(t.Histogram) == 0 {
+			// timer-histogram-limit 0: a timer with a gsd_histogram tag is dropped, it has neither
+			// buckets nor summary statistics (which would all be sent as 0 below)
+			return
+		}
 		if !t.Tags.Exists("host") && t.Source != "" {
 			t.Tags = t.Tags.Concat(gostatsd.Tags{"host:" + string(t.Source)})
 		}
